@@ -31,29 +31,42 @@ THEOREMS = [
 ]
 RULE = ("histories of 0..5 (thorough 0..8) mappings over top-level keys a..e (+ rarely `version`) with Constant, Deleted, "
         "moves (plain and dotted paths, degenerate paths), nested `._mapper` entries (depth <= 2) over sub-documents and "
-        "lists of sub-documents, FunctionCall from a fixed family of 6 pure functions (args None / [] / matching / wrong "
-        "arity); documents with role-typed values (scalars, sub-documents, lists of sub-documents incl. None / scalar "
-        "elements); start versions: 78% in 1..n+1, 9% no version key, 4% beyond latest, 5% <= 0, 4% non-int; ALL split "
+        "lists of sub-documents, FunctionCall with user functions drawn from 15 Python functions (total / partial / raising "
+        "ValueError, KeyError, ZeroDivisionError, RuntimeError / float-producing / container functions / seeded-hash 'random' "
+        "functions of any arity; args None / [] / matching / wrong arity) — the Lean model gets each function as the table of "
+        "calls observed on the real code plus the calls the step contract asks about; documents with role-typed values "
+        "(scalars incl. floats, sub-documents, lists of sub-documents incl. None / scalar elements); start versions: 78% in "
+        "1..n+1, 9% no version key, 4% beyond latest, 5% <= 0, 4% non-int (str, None, bool, list, dict, float); ALL split "
         "points 0..n (+ occasionally n+2); per case one Versioned class (fields Anything / Integer / String / Sub / "
         "Array[Sub]; in half of the cases ~45% of the keys a..e are NOT fields, so histories move / delete / add non-field "
         "keys; nested class with or without the key `a` declared), `_additional_properties` unset / True / False, "
-        "keep_undefined default / True / False, with and without `_versions_mapping` when n == 0, regular and "
-        "direct_trusted_mapping deserialization; a case is non-trivial if at least one mapping is non-empty; distinct by sha256 of the case")
+        "keep_undefined default / True / False, with and without `_versions_mapping` when n == 0, regular (80%: real instance "
+        "compared with the whole-path Lean model) and direct_trusted_mapping deserialization; a case is non-trivial if at "
+        "least one mapping is non-empty; distinct by sha256 of the case")
 ASSUMPTIONS = [
-    "documents are JSON values (None/bool/int/str/list/dict with str keys); no floats",
-    "FunctionCall functions are the 6 pure functions of harness/suites/convert.py, implemented identically in Lean (applyFn)",
-    "keys of Deleted / move / FunctionCall entries do not end in '._mapper'; values of '._mapper' keys are dicts",
-    "law checks apply to every history (also with entries for `version`) and start versions v >= 1 (a document without `version` counts as version 1, as convert_dict treats it); "
-    "v <= 0 and non-int versions are only corresponded (Python slice semantics are modelled)",
+    "documents are JSON values (None/bool/int/str/finite float/list/dict with str keys); floats are exact ratios, no NaN/inf/-0.0",
+    "a FunctionCall function is a pure function of its arguments' values (it may raise; any arity); the theorems quantify over "
+    "ALL such functions (`UserFn := List Json -> R Json`); per case the driver uses the observed call table (a call the table "
+    "lacks is reported as a disagreement)",
+    "a mapping is a Python dict: keys unique per nesting level (`wfMapping`, checked per case); keys of Deleted / move / "
+    "FunctionCall entries do not end in '._mapper'; values of '._mapper' keys are dicts",
+    "law checks apply to every history (also with entries for `version`) and start versions v >= 1 (a document without `version` "
+    "counts as version 1, as convert_dict treats it); int versions v <= 0 are a known-finding region (accepted instead of "
+    "rejected); non-int versions (bool, str, float, ...) are only corresponded (Python slice / arithmetic semantics are modelled)",
     "key order of documents is modelled (insertion order) but compared order-insensitively, like Python ==",
+    "heap-level theorems: user functions obey the capability discipline FnOk (allocate only; return an atom, something new or "
+    "something reachable from the arguments); `copy.deepcopy` is a tree copy (internal sharing is not preserved — irrelevant to "
+    "separation from the input)",
 ]
 TRUSTED_EXTRA = [
-    "C17: wire codec of lean/TypedpyModel/Drive/Convert.lean (objects as ordered pair lists, `._mapper` suffix stripped, "
-    "`str.split('.')` modelled by Lean `String.splitOn`), harness/suites/convert.py (object builders, deep snapshots, "
-    "container-identity alias probe, instance dump)",
-    "C17: the remainder of deserialize_structure_internal after the Versioned prologue is abstracted as a function of "
-    "input_dict (theorem versioned_deser_equiv quantifies over it); tied to the code by comparing the Versioned class on the "
-    "document with a non-Versioned twin class on the converted document",
+    "C17: wire codec of lean/TypedpyModel/Drive/Convert.lean (objects as ordered pair lists, floats as ratios, `._mapper` suffix "
+    "stripped, `str.split('.')` modelled by Lean `String.splitOn`, user functions as call tables looked up up to Python ==), "
+    "harness/suites/convert.py (object builders, call recorder, deep snapshots, container-identity alias probe, instance dump)",
+    "C17: extract/aliasing_c17.py (AST reading of the copy sites and of writes through caller objects in versioned_mapping.py "
+    "-> Generated/AliasingC17.lean); the heap-level model Sem/AliasC17.lean is hand-written and tied to the source only through "
+    "that table and through the harness's snapshots / alias probe (it is not run per case)",
+    "C17: the whole-path model Sem/ConvertDeser.lean reuses Sem/Deser.lean (C05/C06) for the remainder of deserialization; the "
+    "trusted path (direct_trusted_mapping) is tied by the twin-class comparison only",
 ]
 
 
